@@ -293,7 +293,9 @@ def _mm(kind, a, b):
     uniq = {}
     for x in args:
         uniq[x.get_id()] = x
-    args = [uniq[k] for k in sorted(uniq)]
+    # canonical order by the printed term, NOT by z3's ast id: ids depend on what the process created before, and a
+    # different operand order (same meaning) makes solver behaviour differ from run to run
+    args = sorted(uniq.values(), key=lambda t_: t_.sexpr())
     m = args[0]
     for x in args[1:]:
         m = z3.If(m >= x, m, x) if kind == 'max' else z3.If(m <= x, m, x)
